@@ -112,10 +112,10 @@ type vncPathOut struct {
 // One scenario (child process).
 
 type vncGate struct {
-	hdr      []int32 // per node: 1 = open
-	cp, cfh  int32
-	flt      int32
-	allOpen  int32
+	hdr     []int32 // per node: 1 = open
+	cp, cfh int32
+	flt     int32
+	allOpen int32
 }
 
 type vncRun struct {
@@ -130,12 +130,14 @@ type vncRun struct {
 	lks   []int
 	long  int
 
-	mu      sync.Mutex
-	w       *bufio.Writer
-	f       *os.File
-	lastObs []byte
-	stopS   chan struct{}
-	doneS   chan struct{}
+	mu         sync.Mutex
+	w          *bufio.Writer
+	f          *os.File
+	lastObs    []byte
+	prevConn   []int
+	prevCaught []bool
+	stopS      chan struct{}
+	doneS      chan struct{}
 }
 
 func (r *vncRun) real(m int) int { return r.cfg.Delta + r.cfg.Unit*m }
@@ -165,7 +167,41 @@ func (r *vncRun) obs() vncObs {
 func (r *vncRun) emit(a vncAct, o vncObs) {
 	r.mu.Lock()
 	defer r.mu.Unlock()
+	r.eventsLocked(o)
 	r.emitLocked(a, o)
+}
+
+// eventsLocked turns changes of the observation into event steps of their
+// own (observations like Sample, with a label): Conn(p) / Disc(p) when the
+// client's peer table gains / loses node p, Caught(p) when the client's header
+// tip reaches the valid tip of a node that serves an own (static) chain.
+func (r *vncRun) eventsLocked(o vncObs) {
+	if r.prevConn == nil {
+		r.prevConn = make([]int, len(r.nodes))
+		r.prevCaught = make([]bool, len(r.nodes))
+	}
+	for i := range r.nodes {
+		c := 0
+		if i < len(o.Conn) && o.Conn[i] == 1 {
+			c = 1
+		}
+		if c != r.prevConn[i] && (i >= len(o.Conn) || o.Conn[i] >= 0) {
+			op := "Conn"
+			if c == 0 {
+				op = "Disc"
+			}
+			r.prevConn[i] = c
+			r.emitLocked(vncAct{Op: op, Res: "ok", P: i + 1}, o)
+		}
+		if r.nodes[i].Branch() != 0 {
+			want := r.validTip(i)
+			caught := len(o.HTip) == 2 && o.HTip[0] == want.O && o.HTip[1] == want.H
+			if caught && !r.prevCaught[i] {
+				r.emitLocked(vncAct{Op: "Caught", Res: "ok", P: i + 1}, o)
+			}
+			r.prevCaught[i] = caught
+		}
+	}
 }
 
 func (r *vncRun) emitLocked(a vncAct, o vncObs) {
@@ -189,6 +225,7 @@ func (r *vncRun) sampler() {
 		o := r.obs()
 		b, _ := json.Marshal(o)
 		r.mu.Lock()
+		r.eventsLocked(o)
 		if !bytes.Equal(b, r.lastObs) {
 			r.emitLocked(vncAct{Op: "Sample", Res: "ok"}, o)
 		}
@@ -260,7 +297,7 @@ func (r *vncRun) behaviour(i int) vnBehaviour {
 	u := r.cfg.Unit
 	b := vnBehaviour{Kind: kind}
 	switch kind {
-	case "lighter":
+	case "lighter", "lighterq":
 		b.K = u * k
 		b.Len = u*k - 1
 	case "invalid":
@@ -450,7 +487,9 @@ func vncRunOne(in vncPathIn, outFn, scratch string) (err error) {
 	}
 	for _, st := range steps {
 		a := st.Act
-		if a.Op == "Sample" || a.Op == "Init" {
+		switch a.Op {
+		case "Sample", "Init", "Conn", "Disc", "Caught":
+			// observations of an earlier run (replay input)
 			continue
 		}
 		a.Res = "ok"
